@@ -414,25 +414,44 @@ func ruleErrorSplit(c *Ctx, rule string) {
 			c.ok(rule, key, w.At(ret), "returns nil (clean end)")
 			continue
 		}
+		// every value the returned error can be (the loop body may live in a private helper whose result is returned)
 		cause := ""
-		if ex, ok := origin(t[0]).(*ssa.Extract); ok && ex.Index == 1 {
-			if call, ok := ex.Tuple.(*ssa.Call); ok {
-				switch {
-				case call == srecv:
-					cause = "carrier Recv failed"
-				case staticCallee(call) == a.ServerLookup:
-					cause = "frame for a never-created id"
-				case staticCallee(call) == a.Create:
-					// only when ok == false
-					for _, f := range boolFactsAt(ret) {
-						if ex2, ok := f.V.(*ssa.Extract); ok && ex2.Tuple == ssa.Value(call) && ex2.Index == 0 && !f.True {
-							cause = "creation function reported a tunnel-level protocol error"
+		bad := ""
+		for _, vc := range valueCases(t[0], 0) {
+			if isNilConst(vc.Val) {
+				continue // a nil result of the helper is not returned as an error (checked by the caller's err != nil)
+			}
+			facts := append(append([]EdgeFact{}, vc.Facts...), factsAt(ret)...)
+			leafCause := ""
+			if ex, ok := origin(vc.Val).(*ssa.Extract); ok && ex.Index == 1 {
+				if call, ok := ex.Tuple.(*ssa.Call); ok {
+					switch {
+					case call == srecv:
+						leafCause = "carrier Recv failed"
+					case staticCallee(call) == a.ServerLookup:
+						leafCause = "frame for a never-created id"
+					case staticCallee(call) == a.Create:
+						// only when ok == false
+						for _, f := range boolFactsOf(facts) {
+							if ex2, ok := f.V.(*ssa.Extract); ok && ex2.Tuple == ssa.Value(call) && ex2.Index == 0 && !f.True {
+								leafCause = "creation function reported a tunnel-level protocol error"
+							}
 						}
 					}
 				}
 			}
+			if leafCause == "" {
+				bad = desc(vc.Val)
+			} else if cause == "" {
+				cause = leafCause
+			} else if !strings.Contains(cause, leafCause) {
+				cause += "; " + leafCause
+			}
 		}
-		c.check(cause != "", rule, key, w.At(ret), "cause: "+cause, "the serve loop returns error "+desc(t[0])+", which is not a Recv failure, a never-created id, or a tunnel-level (ok == false) creation error: one RPC's problem ends the tunnel")
+		if bad != "" {
+			cause = ""
+		}
+		c.check(cause != "", rule, key, w.At(ret), "cause: "+cause, "the serve loop returns error "+desc(t[0])+" (unexplained value: "+bad+"), which is not a Recv failure, a never-created id, or a tunnel-level (ok == false) creation error: one RPC's problem ends the tunnel")
 	}
 	c.floor(rule, nr, 3, "in-loop returns of the serve loop")
 	// --- creation function returns
